@@ -83,7 +83,8 @@ def generate(g, tier):
         k = r.random()
         if k < 0.4:
             cmd = r.choice(['STRING', 'STRINGLN', 'HOLD', 'ALTSTRING', 'REM2'])
-            e, v = r.choice([('1+1', '2'), ('"a"+1', 'a1'), ('2*3+1', '7'), ('"x"', 'x'), ('7//2', '3'), ('1==1', 'True'), ('"a b"', 'a b'), ('10-20', '-10'), ('(4/2)', '2'), ('!(FALSE)', 'True')])
+            e, v = r.choice([('1+1', '2'), ('"a"+1', 'a1'), ('2*3+1', '7'), ('"x"', 'x'), ('7//2', '3'), ('1==1', 'True'), ('"a b"', 'a b'), ('10-20', '-10'), ('(4/2)', '2'), ('!(FALSE)', 'True'),
+                                 ('1,2', '[1, 2]'), ('"a",1', "['a', 1]"), ('(1,2),3', '[1, 2, 3]'), ('1,(2,3)', '[1, [2, 3]]'), ('TRUE,""', "[True, '']")])
             cases.append(dict(op='compile', src=dict(text=f'${cmd} {e}'), meta=dict(family='dollar', expout=[f'{cmd} {v}'])))
         elif k < 0.7:
             n = r.choice([0, 1, 2, 5, 17, 99, 100, 250])
@@ -92,6 +93,9 @@ def generate(g, tier):
             n = r.choice([0, 1, 2, 5, 50, 98, 99, 100, 101, -1, -5])
             e = str(n) if n >= 0 else f'0-{-n}'
             cases.append(dict(op='compile', src=dict(text=f'WHITESPACE {e}'), meta=dict(family='whitespace', expout=([''] * n if 0 <= n < 100 else None))))
+    # a comma list is ONE value: one line for `$CMD a,b`, and no count for ENTER / WHITESPACE
+    for t in ['$ENTER 2,1', 'WHITESPACE 1,2', '$ENTER (1,2)', 'WHITESPACE (3),4', '$DELAY 1,2']:
+        cases.append(dict(op='compile', src=dict(text=t), meta=dict(family='list-count', expout=None)))
     # the `$`, counted ENTER and WHITESPACE forms follow the CURRENT value of their expression: loop counters and reassigned
     # variables of every identifier shape (no letter at all, one character, prefixes of one another)
     for nm in ['_', '_1', '__', 'i', 'n', 'nn', 'Ab', 'x_9']:
